@@ -47,6 +47,7 @@ class Contract:
         self.bitvec = kw.pop("bitvec", None)
         self.replay = kw.pop("replay", None)
         self.external_overrides = kw.pop("externals", {})
+        self.findings = kw.pop("findings", {})      # {finding id: pre-state clause delimiting the known failing region}
         if kw:
             raise TypeError("unknown contract keys %s" % list(kw))
 
@@ -67,6 +68,11 @@ class Contract:
         g = E.repo.module_globals(rel)
         if name in g and g[name][0] == "class":
             return ExcV(ClassV(g[name][1], g[name][2]), args)
+        for k, ent in g.items():
+            if ent[0] == "repomod":
+                tg = E.repo.module_globals(ent[1])
+                if name in tg and tg[name][0] == "class":
+                    return ExcV(ClassV(tg[name][1], tg[name][2]), args)
         import importlib
         if "." in name:
             mod, _, cn = name.rpartition(".")
